@@ -659,19 +659,19 @@ func dagJobs(rng *rand.Rand, quick bool) []job {
 	}
 	n3, n4 := 150, 0
 	if !quick {
-		n3, n4 = 800, 800
+		n3, n4 = 500, 500
 	}
 	for i := 0; i < n3; i++ {
 		c := scriptCfg{Target: "dag", Programs: [][]op{t[rng.Intn(len(t))], t[rng.Intn(len(t))], t[rng.Intn(len(t))]}}
 		if quick {
 			add(c, "random", 25)
 		} else {
-			add(c, "all", 2000)
+			add(c, "all", 1500)
 		}
 	}
 	for i := 0; i < n4; i++ {
 		c := scriptCfg{Target: "dag", Programs: [][]op{t[rng.Intn(len(t))], t[rng.Intn(len(t))], t[rng.Intn(len(t))], t[rng.Intn(len(t))]}}
-		add(c, "random", 200)
+		add(c, "random", 150)
 	}
 	return jobs
 }
